@@ -9,6 +9,7 @@ import SwcVerif.Model.Subtree
 import SwcVerif.Model.Asc
 import SwcVerif.Model.Redirect
 import SwcVerif.Model.Population
+import SwcVerif.Model.Resample
 
 def dispatch (op : String) (args : List String) : String :=
   match op with
@@ -28,6 +29,7 @@ def dispatch (op : String) (args : List String) : String :=
   | "redirect" | "cat" => Redir.handle op args
   | "lazy" => Pop.handleLazy args
   | "chain" => Pop.handleChain args
+  | "iso" | "lin" | "smooth" => Resample.handle op args
   | "swcline" => SwcText.handleLine args
   | "swcread" => SwcText.handleRead args
   | "swcwrite" => SwcText.handleWrite args
